@@ -947,6 +947,12 @@ func (p *smtPrinter) emit(root *Term) {
 			if _, ok := p.vars[t.name]; !ok {
 				p.vars[t.name] = t
 				fmt.Fprintf(&p.sb, "(declare-fun |%s| () %s)\n", t.name, sortStr(t))
+				if t.kind == 'v' {
+					// declared range (the simplifier relies on it, so it must be asserted verbatim)
+					if lo, hi := fullRange(t.w); t.lo != lo || t.hi != hi {
+						fmt.Fprintf(&p.sb, "(assert (and (bvsle %s |%s|) (bvsle |%s| %s)))\n", bvLit(t.w, uint64(t.lo)), t.name, t.name, bvLit(t.w, uint64(t.hi)))
+					}
+				}
 			}
 			continue
 		}
